@@ -589,6 +589,11 @@ func (E *Engine) loopEnter(st *State, li *loopInfo, from *ssa.BasicBlock) bool {
 		c.coveredLoopN[li.Ordinal]++
 		c.coveredLoop[li.Ordinal] = true
 		E.cover(st, fmt.Sprintf("loop%d", li.Ordinal), "loop invariants are satisfiable at the loop head", E.blockPos(li.Header))
+		if ri, ok := st.env[fmt.Sprintf("ri%d", li.Ordinal)]; ok && ri != nil && ri.S != "" {
+			// the invariants must not pin the loop to its first iteration (e.g. by equating the
+			// iteration count with a call count, which is per path)
+			E.coverWith(st, fmt.Sprintf("loop%d.later", li.Ordinal), "loop invariants are satisfiable at the head of a later iteration", E.blockPos(li.Header), sx(">=", ri.S, "0"))
+		}
 	}
 	return true
 }
@@ -648,14 +653,21 @@ func (E *Engine) dryRunLoop(st *State, li *loopInfo) (map[string]bool, map[*Cell
 	E.dry++
 	savedPaths := E.cur.paths
 	E.dryLoops = append(E.dryLoops, li)
+	esc := map[string]bool{}
+	E.dryEsc = append(E.dryEsc, esc)
 	func() {
 		defer func() {
 			E.dry--
 			E.dryLoops = E.dryLoops[:len(E.dryLoops)-1]
+			E.dryEsc = E.dryEsc[:len(E.dryEsc)-1]
 			E.cur.paths = savedPaths
 		}()
 		E.runFrom(d, li.Header, firstNonPhi(li.Header))
 	}()
+	// objects that escape somewhere in the body are not private at the head of an arbitrary iteration
+	for ref := range esc {
+		E.privDrop(st, ref)
+	}
 	if st.written != nil {
 		for k := range d.written {
 			st.written[k] = true
@@ -720,6 +732,7 @@ func (E *Engine) gotoBlock(st *State, to, from *ssa.BasicBlock) {
 			return
 		}
 		if to == li.Header {
+			E.privDryBack(st, li, from)
 			return
 		}
 	} else if from != nil && E.cur != nil {
